@@ -26,7 +26,7 @@ NONTRIVIAL = ESSENTIAL + ["popen_race"]
 def strategy(tier):
     from hypothesis import strategies as st
     general = graph.graph_case(max_tasks=8 if tier == "quick" else 10, outcomes="some",
-                            foreign=True, tape_max=60, tape_hi=31)
+                            foreign=True, tape_max=60, tape_hi=31, rmout=True)
     virtual = st.one_of(general, general, graph.layered_case(flags=(), p_fail_den=4), graph.sandwich_case())
     real = st.one_of(reallayer.real_case(), reallayer.real_case(layered=True), reallayer.real_case(max_tasks=9, jobs=(3, 4, 5, 8)))
     return reallayer.mixed(virtual, real)
@@ -40,7 +40,7 @@ def run_case(case):
     if case.get("layer") == "real":
         return check(case, reallayer.run_real(case))
     res = graph.run_graph_case(case)
-    return check(case, res)
+    return graph.judge_ambiguous(case, res, check)
 
 
 def check(case, res):
@@ -90,7 +90,7 @@ def check(case, res):
     for x in sorted(failed):
         t = ids[x]
         o = case["outcomes"][str(x)]
-        if "launch" in o or "conflict" in o:
+        if "launch" in o or "conflict" in o or "rmout" in o:
             continue
         msg = rep_failed.get(t)
         if msg is None:
